@@ -1,19 +1,40 @@
 import Pyrtma.Spec.Serial
 import Pyrtma.Props.C09
+import Pyrtma.Proofs.Serial
 /-!
 # C10 — serialisation round trips are the identity
 
-Model M5 flattens a class to its leaf fields; `_to_dict` reads a leaf (`toDictLeaf`), `_from_dict` assigns the value
-back through M4's validated `setField` on a fresh all-zero object (`fromDictLeaf`).  Theorems: the dict round trip
-of a leaf is the identity on every *well-formed* content (`WF`: what the validated API can produce), for all widths
-and all contents; well-formedness of string fields is a theorem about M4 (this is where C10-F1 lived: before the fix a
-short string written over a long one left stale bytes, which are not well-formed and do not round-trip);
-`Message.from_json` refuses exactly the non-zero foreign versions.
+Model M5 (`Model/Serial.lean`): a message class is a **descriptor** `Desc` — the walk of `_fields_` that `_to_dict` /
+`_from_dict` perform: leaf descriptor fields of M4 (ints of every width, float/double, char, byte, string, byte array,
+numeric array of length n), nested structs (field list with the padding ctypes puts in front of each field and after the
+last), arrays of structs.  `toDict d b` is the Python value `to_dict()` returns for an object with bytes `b`;
+`fromDict d v` is `_from_dict` on a fresh (all-zero) object: every leaf is assigned through M4's **validated**
+`setField` / `setItem` (`fromDictLeaf`), a string field accepts a list of characters, a missing key / short list / value
+of the wrong shape is an explicit error outcome, list items beyond a struct array's length are ignored.
 
-Not theorems (checked on the implementation for every class, see harness/serial_corr.py): the array leaves
-(`leaf_roundtrip` below covers scalars, chars, bytes and strings; arrays are element-wise the same facts but the
-induction over `storeMany`/`writeAt` positions is not done), float32 leaves (need `narrow (widen x) = x`, rounding is
-an opaque parameter), the JSON *text* layer (Python's `json`), `bytes()/from_buffer_copy` and `copy` (ctypes).
+Theorems
+* `dict_roundtrip`: **for every descriptor `d` and every well-formed content `b` (`WFD d b`),
+  `fromDict d (toDict d b) = (b, none)`** — structural induction over the descriptor (mutual with the field-list
+  induction `fields_roundtrip`; the struct-array case is the induction over element positions `fromElems_roundtrip`).
+* its leaf cases, each for all widths / lengths / contents: `int_`, `byte_`, `char_`, `str_`, `f64_`, `f32_leaf_roundtrip`,
+  `int_array_roundtrip`, `float_array_roundtrip`, `byte_array_roundtrip` (the induction over the positions of the ctypes
+  slice store `storeMany` / `writeAt` is `Proofs/Serial.lean: storeMany_fill`), collected in `leaf_roundtrip`.
+* `wfB_sound` / `dict_roundtrip_of_check`: the decidable well-formedness check the driver runs on the bytes the real code
+  built implies `WFD`, hence the round trip.
+* well-formedness of string fields is a theorem about M4 (`wf_of_validated_str`, `str_assign_then_roundtrip`; this is
+  where C10-F1 lived: before the fix a short string written over a long one left stale bytes, which are not well-formed
+  and do not round-trip).
+* `Message.from_json` refuses exactly the non-zero foreign versions (`json_version_refused`, `json_version_accepted`).
+
+Floats: values cross as IEEE bit patterns.  `double` leaves and arrays round-trip **exactly** (every finite value, -0.0,
+every NaN payload; the validators never store an infinity, which is part of `WF`).  `float` (binary32) leaves and arrays
+round-trip under the **explicit hypothesis** `narrow (widen x) = x` for each stored element (part of `WFelem`; rounding is
+an opaque parameter of M4) — the driver evaluates this hypothesis on every `float` the real code stored.
+
+What `WFD` demands beyond "right length": strings NUL-terminated ASCII followed by NULs only, chars ASCII, no infinities,
+the `float` hypothesis, every padding byte zero, field names of a struct distinct, and the descriptor shapes the validator
+classes can build (`leafOk`: `String(n)`/`ByteArray(n)` with n > 1, `IntArray` of length ≥ 1 — a zero-length `IntArray`,
+which the message compiler refuses, would indeed not round-trip: see the last example).
 -/
 namespace Pyrtma.C10
 open Pyrtma.Validators Pyrtma.Serial
@@ -122,6 +143,195 @@ theorem f64_leaf_roundtrip (b : Bytes) (hw : WF (.flt .f64) b) :
   simp only [fromDictLeaf, toDictLeaf, setField, setScalar, validateOne, toDouble, infAfter, hinf, if_true, e, lift,
     Bool.false_eq_true, if_false, encFlt, hle]
 
+/-! ### arrays: the induction over element positions -/
+/-- what ctypes reads from `k.size` bytes is in the validator's range and is written back as the same bytes -/
+theorem decInt_facts (k : IK) (c : Bytes) (hlen : c.length = k.size) (hby : ∀ x ∈ c, x < 256) :
+    k.lo ≤ decInt k c ∧ decInt k c ≤ k.hi ∧ encInt k (decInt k c) = c := by
+  have hlt := fromLE_lt c hby
+  have hle := toLE_fromLE c hby
+  rw [hlen] at hlt hle
+  have hr : k.lo ≤ decInt k c ∧ decInt k c ≤ k.hi ∧
+      ((decInt k c) % (2 ^ (8 * k.size) : Int)).toNat = fromLE c := by
+    unfold decInt
+    cases k <;> simp only [IK.size, IK.signed, IK.lo, IK.hi] at hlt ⊢ <;> simp at hlt ⊢ <;> omega
+  refine ⟨hr.1, hr.2.1, ?_⟩
+  simp only [encInt, hr.2.2, hle]
+
+theorem vk_int_ne_byte (k : IK) : (VK.int k == VK.byte) = false := by cases k <;> decide
+
+/-- **integer arrays** of every element width and every length ≥ 1: `to_dict` gives the list of element values,
+`from_dict` assigns it with `field[:] = list` (range check through Python's `max` / `min`, then the ctypes slice store,
+one element after the other) and every byte comes back -/
+theorem int_array_roundtrip (k : IK) (n : Nat) (hn : 0 < n) (b : Bytes) (hw : WF (.arr .intArray (.int k) n) b) :
+    fromDictLeaf (.arr .intArray (.int k) n) (toDictLeaf (.arr .intArray (.int k) n) b) = (b, none) := by
+  obtain ⟨hlen, hby, _⟩ := hw
+  simp only [FTy.size, VK.esize] at hlen
+  have hlen' : b.length = n * k.size := by rw [hlen, Nat.mul_comm]
+  have hcl := chunks_elem_length k.size n b hlen'
+  have hcb := chunks_elem_bytes k.size n b hby
+  let pairs : List (Scalar × Bytes) := (chunks k.size n b).map fun c => (Scalar.int (decInt k c), c)
+  have hp1 : pairs.map (·.1) = decodeItems (.int k) n b := by
+    simp [pairs, decodeItems, VK.esize, Function.comp_def]
+  have hp2 : (pairs.map (·.2)).flatten = b := by
+    simp only [pairs, List.map_map, Function.comp_def, List.map_id']
+    exact chunks_flatten k.size n b hlen'
+  have hpl : pairs.length = n := by simp [pairs, chunks_length]
+  have hst : ∀ p ∈ pairs, elemStore (.int k) p.1 = .ok p.2 ∧ p.2.length = (VK.int k).esize := by
+    intro p hp
+    simp only [pairs, List.mem_map] at hp
+    obtain ⟨c, hc, rfl⟩ := hp
+    have := decInt_facts k c (hcl c hc) (hcb c hc)
+    simp only [elemStore, this.2.2, VK.esize, hcl c hc, and_self]
+  -- the Python-level check
+  have hchk : intMany k.lo k.hi false (decodeItems (.int k) n b) = .ok () := by
+    rw [← hp1]
+    unfold intMany
+    have h1 : (pairs.map (·.1)).any (fun x => !isIntLike x) = false := by
+      simp [pairs, isIntLike]
+    simp only [h1, Bool.false_eq_true, if_false]
+    have hvals : (pairs.map (·.1)).map intVal = (chunks k.size n b).map (decInt k) := by
+      simp [pairs, intVal, Function.comp_def]
+    rw [hvals]
+    have hin : ∀ y ∈ (chunks k.size n b).map (decInt k), k.lo ≤ y ∧ y ≤ k.hi := by
+      intro y hy
+      simp only [List.mem_map] at hy
+      obtain ⟨c, hc, rfl⟩ := hy
+      have := decInt_facts k c (hcl c hc) (hcb c hc)
+      exact ⟨this.1, this.2.1⟩
+    match hm : (chunks k.size n b).map (decInt k), hin with
+    | [], _ =>
+      have : ((chunks k.size n b).map (decInt k)).length = n := by simp [chunks_length]
+      rw [hm] at this; simp at this; omega
+    | y :: ys, hin =>
+      have hy := hin y (by simp)
+      have h2 := pyMax_le k.hi ys y hy.2 (fun z hz => (hin z (by simp [hz])).2)
+      have h3 := pyMin_ge k.lo ys y hy.1 (fun z hz => (hin z (by simp [hz])).1)
+      have : ¬ (pyMax y ys > k.hi ∨ pyMin y ys < k.lo) := by omega
+      simp only [this, if_false]
+  have hfill := storeSlice_fill (.int k) n pairs hpl hst
+  rw [hp1, hp2] at hfill
+  simp only [fromDictLeaf, toDictLeaf, setItem, itemCheck, iterable, validateMany, items, oneShot, hchk, if_true,
+    vk_int_ne_byte, Bool.and_false, Bool.false_eq_true, if_false, FTy.size]
+  exact hfill
+
+theorem vk_flt_ne_byte (k : FK) : (VK.flt k == VK.byte) = false := by cases k <;> decide
+
+/-- the Python float `to_dict` shows for the stored bytes `c` of a `double` / `float` element -/
+def fdec (k : FK) (c : Bytes) : Nat := match k with | .f64 => fromLE c | .f32 => widen (fromLE c)
+
+theorem decodeItems_flt (k : FK) (n : Nat) (b : Bytes) :
+    decodeItems (.flt k) n b = (chunks k.size n b).map fun c => Scalar.flt (fdec k c) := by
+  cases k <;> simp [decodeItems, fdec, VK.esize]
+
+/-- one float element: the value read is accepted by the validator and is stored back as the same bytes -/
+theorem flt_elem_facts (k : FK) (c : Bytes) (hlen : c.length = k.size) (hby : ∀ x ∈ c, x < 256)
+    (hw : WFelem (.flt k) c) : infAfter k (fdec k c) = false ∧ encFlt k (fdec k c) = c := by
+  have hle := toLE_fromLE c hby
+  rw [hlen] at hle
+  cases k with
+  | f64 =>
+    simp only [WFelem] at hw
+    simp only [FK.size] at hle
+    exact ⟨by simp only [infAfter, fdec, hw], by simp only [encFlt, fdec, hle]⟩
+  | f32 =>
+    simp only [WFelem] at hw
+    simp only [FK.size] at hle
+    exact ⟨by simp only [infAfter, fdec, hw.2, hw.1], by simp only [encFlt, fdec, hw.2, hle]⟩
+
+theorem elemStore_flt (k : FK) (w : Nat) : elemStore (.flt k) (.flt w) = .ok (encFlt k w) := by cases k <;> rfl
+
+theorem fltMany_ok (k : FK) : ∀ (ws : List Nat), (∀ w ∈ ws, infAfter k w = false) → fltMany k (ws.map Scalar.flt) = .ok ()
+  | [], _ => rfl
+  | w :: ws, h => by
+    simp only [List.map_cons, fltMany, toDouble, h w (by simp), Bool.false_eq_true, if_false]
+    exact fltMany_ok k ws (fun v hv => h v (by simp [hv]))
+
+/-- **float arrays**, every length: `double` elements bit for bit (every finite value, -0.0, every NaN payload);
+`float` elements under the explicit rounding hypothesis of `WFelem` (`narrow (widen x) = x` for each stored element) -/
+theorem float_array_roundtrip (k : FK) (n : Nat) (b : Bytes) (hw : WF (.arr .floatArray (.flt k) n) b) :
+    fromDictLeaf (.arr .floatArray (.flt k) n) (toDictLeaf (.arr .floatArray (.flt k) n) b) = (b, none) := by
+  obtain ⟨hlen, hby, hel⟩ := hw
+  simp only [FTy.size, VK.esize] at hlen
+  simp only [VK.esize] at hel
+  have hlen' : b.length = n * k.size := by rw [hlen, Nat.mul_comm]
+  have hcl := chunks_elem_length k.size n b hlen'
+  have hcb := chunks_elem_bytes k.size n b hby
+  let pairs : List (Scalar × Bytes) := (chunks k.size n b).map fun c => (Scalar.flt (fdec k c), c)
+  have hp1 : pairs.map (·.1) = decodeItems (.flt k) n b := by
+    simp [pairs, decodeItems_flt, Function.comp_def]
+  have hp2 : (pairs.map (·.2)).flatten = b := by
+    simp only [pairs, List.map_map, Function.comp_def, List.map_id']
+    exact chunks_flatten k.size n b hlen'
+  have hpl : pairs.length = n := by simp [pairs, chunks_length]
+  have hst : ∀ p ∈ pairs, elemStore (.flt k) p.1 = .ok p.2 ∧ p.2.length = (VK.flt k).esize := by
+    intro p hp
+    simp only [pairs, List.mem_map] at hp
+    obtain ⟨c, hc, rfl⟩ := hp
+    have := flt_elem_facts k c (hcl c hc) (hcb c hc) (hel c hc)
+    simp only [elemStore_flt, this.2, VK.esize, hcl c hc, and_self]
+  have hchk : fltMany k (decodeItems (.flt k) n b) = .ok () := by
+    rw [decodeItems_flt]
+    have := fltMany_ok k ((chunks k.size n b).map (fdec k)) (by
+      intro w hw
+      simp only [List.mem_map] at hw
+      obtain ⟨c, hc, rfl⟩ := hw
+      exact (flt_elem_facts k c (hcl c hc) (hcb c hc) (hel c hc)).1)
+    simpa [Function.comp_def] using this
+  have hfill := storeSlice_fill (.flt k) n pairs hpl hst
+  rw [hp1, hp2] at hfill
+  simp only [fromDictLeaf, toDictLeaf, setItem, itemCheck, iterable, validateMany, items, hchk, if_true,
+    vk_flt_ne_byte, Bool.and_false, Bool.false_eq_true, if_false, FTy.size]
+  exact hfill
+
+/-- **byte arrays** (`ByteArray(n)`, n ≥ 2): `to_dict` gives `bytes`, `from_dict` assigns them with `field[:] = bytes`
+(converted to a list of ints, stored element by element) -/
+theorem byte_array_roundtrip (n : Nat) (hn : 1 < n) (b : Bytes) (hw : WF (.arr .byteArray .byte n) b) :
+    fromDictLeaf (.arr .byteArray .byte n) (toDictLeaf (.arr .byteArray .byte n) b) = (b, none) := by
+  obtain ⟨hlen, hby, _⟩ := hw
+  simp only [FTy.size, VK.esize, Nat.one_mul] at hlen
+  let pairs : List (Scalar × Bytes) := b.map fun (x : Nat) => (Scalar.int (x : Int), [x])
+  have hp1 : pairs.map (·.1) = b.map fun (x : Nat) => Scalar.int (x : Int) := by simp [pairs, Function.comp_def]
+  have hsing : ∀ (l : List Nat), (l.map fun x => [x]).flatten = l := by
+    intro l; induction l with
+    | nil => rfl
+    | cons x xs ih => simp [ih]
+  have hp2 : (pairs.map (·.2)).flatten = b := by
+    simp only [pairs, List.map_map, Function.comp_def]
+    exact hsing b
+  have hpl : pairs.length = n := by simp [pairs, hlen]
+  have hst : ∀ p ∈ pairs, elemStore .byte p.1 = .ok p.2 ∧ p.2.length = VK.byte.esize := by
+    intro p hp
+    simp only [pairs, List.mem_map] at hp
+    obtain ⟨x, hx, rfl⟩ := hp
+    have hx' := hby x hx
+    have e2 : encInt .u8 (x : Int) = [x] := by
+      simp only [encInt, IK.size, toLE]
+      have : (((x : Int) % (2 ^ (8 * 1) : Int)).toNat) = x := by simp; omega
+      rw [this]; simp; omega
+    simp only [elemStore, e2, VK.esize, List.length_cons, List.length_nil, and_self]
+  have hfill := storeSlice_fill .byte n pairs hpl hst
+  rw [hp1, hp2] at hfill
+  have hconv : byteConv (.sc (.bytes b)) = .seq .list (b.map fun (x : Nat) => Scalar.int (x : Int)) := by
+    match b, hlen with
+    | [], h => simp at h; omega
+    | [_], h => simp at h; omega
+    | _ :: _ :: _, _ => rfl
+  simp only [fromDictLeaf, toDictLeaf, setItem, itemCheck, iterable, validateMany, if_true, hconv,
+    Bool.and_self, beq_self_eq_true, FTy.size]
+  simpa [VK.esize] using hfill
+
+theorem flt_scalar_store (k : FK) (w : Nat) (b : Bytes) (h1 : infAfter k w = false) (h2 : encFlt k w = b) :
+    fromDictLeaf (.flt k) (.sc (.flt w)) = (b, none) := by
+  simp only [fromDictLeaf, setField, setScalar, validateOne, toDouble, h1, if_true, elemStore_flt, lift,
+    Bool.false_eq_true, if_false, h2]
+
+/-- **float (binary32) scalar leaves**, under the explicit rounding hypothesis of `WFelem` -/
+theorem f32_leaf_roundtrip (b : Bytes) (hw : WF (.flt .f32) b) :
+    fromDictLeaf (.flt .f32) (toDictLeaf (.flt .f32) b) = (b, none) := by
+  obtain ⟨hlen, hby, hel⟩ := hw
+  have hf := flt_elem_facts .f32 b hlen hby hel
+  exact flt_scalar_store .f32 _ b hf.1 hf.2
+
 theorem upToNul_subset : ∀ (cs : List Nat) (c : Nat), c ∈ upToNul cs → c ∈ cs
   | [], c, h => by simp [upToNul] at h
   | x :: xs, c, h => by
@@ -164,6 +374,172 @@ theorem str_assign_then_roundtrip (n : Nat) (hn : 1 < n) (old : Bytes) (s : Scal
     fromDictLeaf (.str n) (toDictLeaf (.str n) post) = (post, none) :=
   str_leaf_roundtrip n hn post (wf_of_validated_str n hn old s post h)
 
+/-! ### whole classes -/
+/-- **every leaf descriptor the validator classes can build** round-trips through `to_dict` / `from_dict` on every
+well-formed content -/
+theorem leaf_roundtrip (ty : FTy) (hok : leafOk ty = true) (b : Bytes) (hw : WF ty b) :
+    fromDictLeaf ty (toDictLeaf ty b) = (b, none) := by
+  match ty, hok, hw with
+  | .int k, _, hw => exact int_leaf_roundtrip k b hw
+  | .flt .f64, _, hw => exact f64_leaf_roundtrip b hw
+  | .flt .f32, _, hw => exact f32_leaf_roundtrip b hw
+  | .char, _, hw => exact char_leaf_roundtrip b hw
+  | .byte, _, hw => exact byte_leaf_roundtrip b hw
+  | .str n, hok, hw => exact str_leaf_roundtrip n (by simpa [leafOk] using hok) b hw
+  | .arr .byteArray .byte n, hok, hw => exact byte_array_roundtrip n (by simpa [leafOk] using hok) b hw
+  | .arr .intArray (.int k) n, hok, hw => exact int_array_roundtrip k n (by simpa [leafOk] using hok) b hw
+  | .arr .floatArray (.flt k) n, _, hw => exact float_array_roundtrip k n b hw
+
+theorem leafArg_toDictLeaf (ty : FTy) (b : Bytes) : leafArg ty (toDictLeaf ty b) = toDictLeaf ty b := by
+  cases ty <;> rfl
+
+theorem Vals_toList_ofList : ∀ (l : List Val), (Vals.ofList l).toList = l
+  | [] => rfl
+  | v :: vs => by simp [Vals.ofList, Vals.toList, Vals_toList_ofList vs]
+
+theorem fromElems_roundtrip (f : Val → Bytes × Option DErr) (g : Bytes → Val) (esz : Nat) :
+    ∀ (cs : List Bytes), (∀ c ∈ cs, f (g c) = (c, none)) → fromElems f esz cs.length (cs.map g) = (cs.flatten, none)
+  | [], _ => rfl
+  | c :: cs, h => by
+    have ih := fromElems_roundtrip f g esz cs (fun d hd => h d (by simp [hd]))
+    simp only [List.length_cons, List.map_cons, fromElems, h c (by simp), ih, List.flatten_cons]
+
+theorem lookup_append (name : String) (v : Val) (rest : KVs) :
+    ∀ (pre : KVs), name ∉ pre.keys → (pre.append (.cons name v rest)).lookup name = some v
+  | .nil, _ => by simp [KVs.append, KVs.lookup]
+  | .cons k w r, h => by
+    simp only [KVs.keys, List.mem_cons, not_or] at h
+    have hk : (k == name) = false := by simpa using fun e => h.1 e.symm
+    simp only [KVs.append, KVs.lookup, hk, Bool.false_eq_true, if_false]
+    exact lookup_append name v rest r h.2
+
+theorem append_assoc_one (name : String) (v : Val) (rest : KVs) :
+    ∀ (pre : KVs), pre.append (.cons name v rest) = (pre.append (.cons name v .nil)).append rest
+  | .nil => rfl
+  | .cons k w r => by simp only [KVs.append, append_assoc_one name v rest r]
+
+theorem keys_append_one (name : String) (v : Val) : ∀ (pre : KVs), (pre.append (.cons name v .nil)).keys = pre.keys ++ [name]
+  | .nil => rfl
+  | .cons k w r => by simp only [KVs.append, KVs.keys, keys_append_one name v r, List.cons_append]
+
+theorem WFF_length : ∀ (fs : Fields) (b : Bytes), WFF fs b → b.length = fs.size
+  | .nil, b, h => by simp only [WFF] at h; simp [h, Fields.size]
+  | .cons name pad d r, b, h => by
+    simp only [WFF] at h
+    obtain ⟨db, rb, rfl, hl, _, hr, _⟩ := h
+    have := WFF_length r rb hr
+    simp [Fields.size, zeros_length, hl, this]; omega
+
+mutual
+/-- **Whole-message dict round trip**: for every class descriptor (any nesting of structs, struct arrays, and leaf
+fields of every kind and length) and every well-formed content, `from_dict(to_dict(m))` has exactly the bytes of `m`
+and raises nothing.  Structural induction over the descriptor; the struct-array case is the induction over element
+positions, the struct case the induction over the field list with the dictionary built so far as accumulator. -/
+theorem dict_roundtrip : ∀ (d : Desc) (b : Bytes), WFD d b → fromDict d (toDict d b) = (b, none)
+  | .leaf ty, b, h => by
+    simp only [WFD] at h
+    simp only [toDict, fromDict, leafArg_toDictLeaf, leaf_roundtrip ty h.1 b h.2, Option.map_none]
+  | .strct fs tail, b, h => by
+    simp only [WFD] at h
+    obtain ⟨fb, rfl, hf⟩ := h
+    have := fields_roundtrip fs fb (zeros tail) .nil hf (by simp [KVs.keys])
+    simp only [KVs.append] at this
+    simp only [toDict, fromDict, this]
+  | .sarr n e, b, h => by
+    simp only [WFD] at h
+    obtain ⟨hl, hc⟩ := h
+    have ih : ∀ c ∈ chunks e.size n b, fromDict e (toDict e c) = (c, none) := fun c hcm => dict_roundtrip e c (hc c hcm)
+    have := fromElems_roundtrip (fun v => fromDict e v) (fun c => toDict e c) e.size (chunks e.size n b) ih
+    rw [chunks_length, chunks_flatten e.size n b hl] at this
+    simp only [toDict, fromDict, Vals_toList_ofList, this]
+/-- the field-list induction: `kvs` is the whole dictionary (`pre` are the entries of the fields already done) -/
+theorem fields_roundtrip : ∀ (fs : Fields) (b rest : Bytes) (pre : KVs), WFF fs b → (∀ nm ∈ fs.names, nm ∉ pre.keys) →
+    fromDictFields fs (pre.append (toDictFields fs (b ++ rest))) = (b, none)
+  | .nil, b, rest, pre, h, _ => by
+    simp only [WFF] at h
+    simp [fromDictFields, h]
+  | .cons name pad d r, b, rest, pre, h, hn => by
+    simp only [WFF] at h
+    obtain ⟨db, rb, rfl, hl, hd, hr, hnr⟩ := h
+    have hz : (zeros pad).length = pad := zeros_length pad
+    have e1 : ((zeros pad ++ db ++ rb ++ rest).drop pad).take d.size = db := by
+      rw [List.append_assoc, List.append_assoc, List.drop_left' hz, List.take_left' hl]
+    have e2 : (zeros pad ++ db ++ rb ++ rest).drop (pad + d.size) = rb ++ rest := by
+      rw [List.append_assoc]
+      exact List.drop_left' (by simp [hz, hl])
+    have hname : name ∉ pre.keys := hn name (by simp [Fields.names])
+    simp only [toDictFields, e1, e2, fromDictFields, lookup_append name _ _ pre hname, dict_roundtrip d db hd]
+    rw [append_assoc_one]
+    have hn' : ∀ nm ∈ r.names, nm ∉ (pre.append (.cons name (toDict d db) .nil)).keys := by
+      intro nm hnm
+      rw [keys_append_one]
+      simp only [List.mem_append, List.mem_singleton, not_or]
+      exact ⟨hn nm (by simp [Fields.names, hnm]), fun e => hnr (e ▸ hnm)⟩
+    rw [fields_roundtrip r rb rest _ hr hn']
+end
+
+/-! ### the decidable form of well-formedness -/
+theorem wfElemB_sound (vk : VK) (c : Bytes) (h : wfElemB vk c = true) : WFelem vk c := by
+  unfold wfElemB at h
+  unfold WFelem
+  split at h <;> simp_all
+
+theorem wfLeafB_sound (ty : FTy) (b : Bytes) (h : wfLeafB ty b = true) : WF ty b := by
+  unfold wfLeafB at h
+  simp only [Bool.and_eq_true, beq_iff_eq, List.all_eq_true, decide_eq_true_eq] at h
+  obtain ⟨⟨hl, hb⟩, hm⟩ := h
+  refine ⟨hl, hb, ?_⟩
+  match ty, hm with
+  | .char, hm => simpa using hm
+  | .flt .f64, hm => simpa using hm
+  | .flt .f32, hm => exact wfElemB_sound _ _ hm
+  | .str n, hm =>
+    simp only [Bool.and_eq_true, List.all_eq_true, decide_eq_true_eq, beq_iff_eq] at hm
+    obtain ⟨⟨h1, h2⟩, h3⟩ := hm
+    refine ⟨upToNul b, ?_, h2, h3⟩
+    intro c hc
+    have := C09.upToNul_no_zero b c hc
+    exact ⟨by omega, h1 c hc⟩
+  | .arr _ vk n, hm =>
+    simp only [List.all_eq_true] at hm
+    exact fun c hc => wfElemB_sound vk c (hm c hc)
+  | .int _, _ => trivial
+  | .byte, _ => trivial
+  | .strct _ _, _ => trivial
+
+mutual
+/-- the decidable check the driver runs on the real bytes implies the hypothesis of `dict_roundtrip` -/
+theorem wfB_sound : ∀ (d : Desc) (b : Bytes), wfB d b = true → WFD d b
+  | .leaf ty, b, h => by
+    simp only [wfB, Bool.and_eq_true] at h
+    simp only [WFD]
+    exact ⟨h.1, wfLeafB_sound ty b h.2⟩
+  | .strct fs tail, b, h => by
+    simp only [wfB, Bool.and_eq_true, beq_iff_eq] at h
+    simp only [WFD]
+    refine ⟨b.take fs.size, ?_, wfFieldsB_sound fs _ h.1⟩
+    rw [← h.2, List.take_append_drop]
+  | .sarr n e, b, h => by
+    simp only [wfB, Bool.and_eq_true, beq_iff_eq, List.all_eq_true] at h
+    simp only [WFD]
+    exact ⟨h.1, fun c hc => wfB_sound e c (h.2 c hc)⟩
+theorem wfFieldsB_sound : ∀ (fs : Fields) (b : Bytes), wfFieldsB fs b = true → WFF fs b
+  | .nil, b, h => by
+    simp only [wfFieldsB, List.isEmpty_iff] at h
+    simp only [WFF, h]
+  | .cons name pad d r, b, h => by
+    simp only [wfFieldsB, Bool.and_eq_true, beq_iff_eq, Bool.not_eq_true', List.contains_eq_mem,
+      decide_eq_false_iff_not] at h
+    obtain ⟨⟨⟨⟨h1, h2⟩, h3⟩, h4⟩, h5⟩ := h
+    simp only [WFF]
+    refine ⟨(b.drop pad).take d.size, b.drop (pad + d.size), ?_, h2, wfB_sound d _ h3, wfFieldsB_sound r _ h4, h5⟩
+    rw [← h1, ← List.drop_drop, List.append_assoc, List.take_append_drop, List.take_append_drop]
+end
+
+/-- consequently: whatever bytes pass the driver's check round-trip in the model -/
+theorem dict_roundtrip_of_check (d : Desc) (b : Bytes) (h : wfB d b = true) : fromDict d (toDict d b) = (b, none) :=
+  dict_roundtrip d b (wfB_sound d b h)
+
 /-! ### non-vacuity -/
 /-- "hello" then "hi" in a `char[8]`: the patched store leaves `hi` + six NULs, which round-trips -/
 example : setField true (.str 8) [104, 101, 108, 108, 111, 0, 0, 0] .whole (.sc (.str [104, 105])) = ([104, 105, 0, 0, 0, 0, 0, 0], none) := by decide
@@ -175,5 +551,39 @@ example : toDictLeaf (.int .i16) [0, 128] = .sc (.int (-32768)) := by decide
 example : fromDictLeaf (.arr .intArray (.int .i8) 3) (toDictLeaf (.arr .intArray (.int .i8) 3) [255, 0, 127]) = ([255, 0, 127], none) := by decide
 example : fromDictLeaf (.arr .byteArray .byte 2) (toDictLeaf (.arr .byteArray .byte 2) [255, 0]) = ([255, 0], none) := by decide
 example : versionRefused 5 6 = true ∧ versionRefused 0 6 = false ∧ versionRefused 6 6 = false := by decide
+
+/-! #### whole classes -/
+/-- a class with a leading `int16`, two bytes of padding, then `StructArray(S, 2)` where `S = {uint8 x; char t[3]}` -/
+def exDesc : Desc :=
+  .strct (.cons "a" 0 (.leaf (.int .i16)) (.cons "s" 2
+    (.sarr 2 (.strct (.cons "x" 0 (.leaf (.int .u8)) (.cons "t" 0 (.leaf (.str 3)) .nil)) 0)) .nil)) 0
+def exBytes : Bytes := [1, 2, 0, 0, 5, 104, 0, 0, 6, 104, 105, 0]
+example : exDesc.size = 12 := by decide
+example : wfB exDesc exBytes = true := by decide
+example : toDict exDesc exBytes = .dict (.cons "a" (.leaf (.sc (.int 513))) (.cons "s" (.list
+    (.cons (.dict (.cons "x" (.leaf (.sc (.int 5))) (.cons "t" (.leaf (.sc (.str [104]))) .nil)))
+    (.cons (.dict (.cons "x" (.leaf (.sc (.int 6))) (.cons "t" (.leaf (.sc (.str [104, 105]))) .nil))) .nil))) .nil)) := by
+  decide
+example : fromDict exDesc (toDict exDesc exBytes) = (exBytes, none) := by decide
+/-- non-zero padding is not well-formed and does not come back -/
+example : wfB exDesc [1, 2, 9, 0, 5, 104, 0, 0, 6, 104, 105, 0] = false := by decide
+example : fromDict exDesc (toDict exDesc [1, 2, 9, 0, 5, 104, 0, 0, 6, 104, 105, 0]) = (exBytes, none) := by decide
+/-- a missing key, a short list: explicit errors -/
+example : (fromDict exDesc (.dict (.cons "a" (.leaf (.sc (.int 1))) .nil))).2 = some .key := by decide
+example : (fromDict exDesc (.dict (.cons "a" (.leaf (.sc (.int 1))) (.cons "s" (.list .nil) .nil)))).2 = some .index := by decide
+/-- list of characters for a string field -/
+example : fromDict (.leaf (.str 3)) (.leaf (.seq .list [.str [104], .str [105]])) = ([104, 105, 0], none) := by decide
+/-- arrays -/
+example : WF (.arr .intArray (.int .i16) 2) [255, 255, 0, 128] := wfLeafB_sound _ _ (by decide)
+example : toDictLeaf (.arr .intArray (.int .i16) 2) [255, 255, 0, 128] = .seq .list [.int (-1), .int (-32768)] := by decide
+example : fromDictLeaf (.arr .floatArray (.flt .f64) 2) (toDictLeaf (.arr .floatArray (.flt .f64) 2)
+    [0, 0, 0, 0, 0, 0, 0, 128, 1, 0, 0, 0, 0, 0, 248, 255]) = ([0, 0, 0, 0, 0, 0, 0, 128, 1, 0, 0, 0, 0, 0, 248, 255], none) := by
+  decide
+/-- the rounding hypothesis for `float` elements is satisfiable (a quiet NaN needs no rounding) and excludes signalling NaNs -/
+example : wfElemB (.flt .f32) [0, 0, 192, 127] = true := by decide +kernel
+example : wfElemB (.flt .f32) [1, 0, 128, 127] = false := by decide +kernel
+/-- the zero-length `IntArray` is outside `leafOk`, and indeed does not round-trip (Python's `max()` of an empty list) -/
+example : fromDictLeaf (.arr .intArray (.int .i8) 0) (toDictLeaf (.arr .intArray (.int .i8) 0) []) = ([], some .valueError) := by
+  decide
 
 end Pyrtma.C10
